@@ -26,7 +26,7 @@ def budget(tier):
 def strategy(tier):
     @st.composite
     def s(draw):
-        c, n, tp = draw(gens.cfg(max_dim=144, frames=(2, 8), allow_twopass=False, lps=(1, 2), presets=(8, 8, 7, 6), tools_p=2, allow_rc=False, exclude=("AQ1", "GRAIN", "SRES", "2PASS")))   # rate control is nondeterministic on its own (listed C04 finding)
+        c, n, tp = draw(gens.cfg(max_dim=144, frames=(2, 8), allow_twopass=False, lps=(1, 2), presets=(8, 8, 7, 6), tools_p=2, allow_rc=False, exclude=("AQ1", "GRAIN", "SRES", "2PASS", "16BP")))   # rate control is nondeterministic on its own (listed C04 finding)
         # sparse: keep only a random subset of the generated overrides (size always explicit)
         keep = {"source_width", "source_height", "logical_processors", "enc_mode"}
         for k in list(c):
